@@ -595,8 +595,112 @@ func checkWarnings(p *Program, r *Report, pk *ssa.Package, runner *ssa.Function)
 	if okFind {
 		r.OK("R17.5", FuncKey(find)+": default value always accompanied by a message")
 	}
+	// Initialise and the helpers of its own package it delegates the assembly to (one or two levels)
+	initFns := []*ssa.Function{initialise}
+	callSites := map[*ssa.Function][]*ssa.Call{}
+	{
+		seen := map[*ssa.Function]bool{initialise: true, find: true}
+		work := []*ssa.Function{initialise}
+		for depth := 0; depth < 2; depth++ {
+			var next []*ssa.Function
+			for _, fn := range work {
+				for _, c := range callsIn(fn) {
+					f := c.Common().StaticCallee()
+					cv, isCall := c.(*ssa.Call)
+					if f == nil || !isCall || f.Blocks == nil || fnPkg(f) != fnPkg(initialise) {
+						continue
+					}
+					if f.Name() == "Find" {
+						continue
+					}
+					callSites[f] = append(callSites[f], cv)
+					if !seen[f] {
+						seen[f] = true
+						initFns = append(initFns, f)
+						next = append(next, f)
+					}
+				}
+			}
+			work = next
+		}
+	}
+	// argsFor: what a helper's parameter stands for at its call sites
+	argsFor := func(prm *ssa.Parameter) []ssa.Value {
+		var out []ssa.Value
+		fn := prm.Parent()
+		for i, q := range fn.Params {
+			if q != prm {
+				continue
+			}
+			for _, cs := range callSites[fn] {
+				if i < len(cs.Common().Args) {
+					out = append(out, cs.Common().Args[i])
+				}
+			}
+		}
+		return out
+	}
 	// Initialise: the message is appended when non-empty; missing inputs appended
 	warnIdx := initialise.Signature.Results().Len() - 1
+	// reachesWarnings: v (a []string) flows to the warnings Initialise returns, through appends, phis and helpers
+	// that thread their warnings parameter to their result
+	var reachesWarnings func(v ssa.Value, seen map[ssa.Value]bool) bool
+	reachesWarnings = func(v ssa.Value, seen map[ssa.Value]bool) bool {
+		if seen[v] {
+			return false
+		}
+		seen[v] = true
+		for _, ref := range refs(v) {
+			switch y := ref.(type) {
+			case *ssa.Return:
+				fn := y.Parent()
+				if fn == initialise {
+					if warnIdx < len(y.Results) && y.Results[warnIdx] == v {
+						return true
+					}
+					continue
+				}
+				// a helper returning v: continue at the call sites with the corresponding result
+				for ri, res := range y.Results {
+					if res != v {
+						continue
+					}
+					for _, cs := range callSites[fn] {
+						if fn.Signature.Results().Len() == 1 {
+							if reachesWarnings(cs, seen) {
+								return true
+							}
+							continue
+						}
+						for _, r2 := range refs(cs) {
+							if ex, ok := r2.(*ssa.Extract); ok && ex.Index == ri && reachesWarnings(ex, seen) {
+								return true
+							}
+						}
+					}
+				}
+			case *ssa.Phi:
+				if reachesWarnings(y, seen) {
+					return true
+				}
+			case *ssa.Call:
+				if b, ok := y.Common().Value.(*ssa.Builtin); ok && b.Name() == "append" && len(y.Common().Args) > 0 && y.Common().Args[0] == v {
+					if reachesWarnings(y, seen) {
+						return true
+					}
+					continue
+				}
+				if f := y.Common().StaticCallee(); f != nil && callSites[f] != nil {
+					for i, a := range y.Common().Args {
+						if a == v && i < len(f.Params) && reachesWarnings(f.Params[i], seen) {
+							return true
+						}
+					}
+				}
+			}
+		}
+		return false
+	}
 	appendsOf := func(v ssa.Value) bool {
 		// v flows into an append whose result reaches the returned warnings
 		seen := map[ssa.Value]bool{}
@@ -622,7 +726,7 @@ func checkWarnings(p *Program, r *Report, pk *ssa.Package, runner *ssa.Function)
 					}
 				case *ssa.Call:
 					if b, ok := y.Common().Value.(*ssa.Builtin); ok && b.Name() == "append" {
-						return true
+						return reachesWarnings(y, map[ssa.Value]bool{})
 					}
 					if walk(y) {
 						return true
@@ -639,7 +743,15 @@ func checkWarnings(p *Program, r *Report, pk *ssa.Package, runner *ssa.Function)
 	}
 	_ = warnIdx
 	nW := 0
-	for _, c := range callsIn(initialise) {
+	var findCalls []ssa.CallInstruction
+	for _, fn := range initFns {
+		for _, c := range callsIn(fn) {
+			if c.Common().StaticCallee() == find {
+				findCalls = append(findCalls, c)
+			}
+		}
+	}
+	for _, c := range findCalls {
 		if c.Common().StaticCallee() == find {
 			// message result
 			for _, ref := range refs(c.(*ssa.Call)) {
@@ -657,10 +769,7 @@ func checkWarnings(p *Program, r *Report, pk *ssa.Package, runner *ssa.Function)
 		}
 	}
 	// the looked-up (or default) value reaches the parameter vector on every path of the iteration
-	for _, c := range callsIn(initialise) {
-		if c.Common().StaticCallee() != find {
-			continue
-		}
+	for _, c := range findCalls {
 		var valEx ssa.Value
 		for _, ref := range refs(c.(*ssa.Call)) {
 			if ex, ok := ref.(*ssa.Extract); ok && ex.Index == 0 {
@@ -684,7 +793,7 @@ func checkWarnings(p *Program, r *Report, pk *ssa.Package, runner *ssa.Function)
 			continue
 		}
 		// every path from the lookup to the end of the iteration passes the store
-		loops := findLoops(initialise)
+		loops := findLoops(c.Parent())
 		l := innermostLoop(loops, c.Block())
 		bad := false
 		if l != nil && c.Block() != store.Block() {
@@ -701,28 +810,30 @@ func checkWarnings(p *Program, r *Report, pk *ssa.Package, runner *ssa.Function)
 	}
 	// missing input: on the nil edge of the input lookup a warning is appended
 	missing := false
-	eachInstr(initialise, func(b *ssa.BasicBlock, _ int, ins ssa.Instruction) {
-		iff, ok := ins.(*ssa.If)
-		if !ok {
-			return
-		}
-		bo, ok := iff.Cond.(*ssa.BinOp)
-		if !ok || bo.Op != token.EQL || !isNilConst(bo.Y) {
-			return
-		}
-		c, ok := bo.X.(*ssa.Call)
-		if !ok || callName(c.Common()) != "Find" {
-			return
-		}
-		// then-branch contains an append
-		for _, i2 := range b.Succs[0].Instrs {
-			if cc, ok := i2.(*ssa.Call); ok {
-				if bi, ok := cc.Common().Value.(*ssa.Builtin); ok && bi.Name() == "append" {
-					missing = true
+	for _, initFn := range initFns {
+		eachInstr(initFn, func(b *ssa.BasicBlock, _ int, ins ssa.Instruction) {
+			iff, ok := ins.(*ssa.If)
+			if !ok {
+				return
+			}
+			bo, ok := iff.Cond.(*ssa.BinOp)
+			if !ok || bo.Op != token.EQL || !isNilConst(bo.Y) {
+				return
+			}
+			c, ok := bo.X.(*ssa.Call)
+			if !ok || callName(c.Common()) != "Find" {
+				return
+			}
+			// then-branch contains an append whose result reaches the returned warnings
+			for _, i2 := range b.Succs[0].Instrs {
+				if cc, ok := i2.(*ssa.Call); ok {
+					if bi, ok := cc.Common().Value.(*ssa.Builtin); ok && bi.Name() == "append" && reachesWarnings(cc, map[ssa.Value]bool{}) {
+						missing = true
+					}
 				}
 			}
-		}
-	})
+		})
+	}
 	nW++
 	if missing {
 		r.OK("R17.5", "sim.Initialise: a missing input appends a warning")
@@ -788,7 +899,11 @@ func checkWarnings(p *Program, r *Report, pk *ssa.Package, runner *ssa.Function)
 	// R17.7: a supplied series lands in the row of the input it was supplied for
 	r.Rule("R17.7", "input assembly: each supplied series is written to the row whose index is the position, in the model description's input list, of the name it was looked up under (same loop index for the lookup and for the row)")
 	nRows := 0
-	for _, c := range callsIn(initialise) {
+	var applyCalls []ssa.CallInstruction
+	for _, fn := range initFns {
+		applyCalls = append(applyCalls, callsIn(fn)...)
+	}
+	for _, c := range applyCalls {
 		nm := callName(c.Common())
 		if nm != "Apply" && nm != "ApplySlice" && nm != "Apply1" {
 			continue
@@ -830,8 +945,21 @@ func checkWarnings(p *Program, r *Report, pk *ssa.Package, runner *ssa.Function)
 					continue
 				}
 				if ia.Index == row || origin1(ia.Index) == origin1(row) {
-					// and the indexed slice is the Inputs field of the model description
-					if n, _, okf := loadedField(origin1(ia.X)); okf && n == "Inputs" {
+					// and the indexed slice is the Inputs field of the model description (possibly handed to a helper)
+					lists := []ssa.Value{origin1(ia.X)}
+					if prm, isPrm := origin1(ia.X).(*ssa.Parameter); isPrm {
+						lists = nil
+						for _, a := range argsFor(prm) {
+							lists = append(lists, origin1(a))
+						}
+					}
+					isInputs := len(lists) > 0
+					for _, lv := range lists {
+						if n, _, okf := loadedField(lv); !okf || n != "Inputs" {
+							isInputs = false
+						}
+					}
+					if isInputs {
 						okRow = true
 					} else {
 						why = "the names are not taken from the model description's Inputs list"
